@@ -87,6 +87,7 @@ def run(res, tier):
     from . import sm_state
     from . import srs_shared as SS
     SS.ancestor_deref_rule(res, fx, 'R-CRASH')
+    SS.nullable_results_rule(res, fx, 'R-CRASH')
     SS.raw_from_ref_rule(res, fx, 'R-CRASH')
     sm_state.regex_valid_rule(res, fx)       # a client-supplied pattern that fails to compile must leave the matcher unusable-but-safe, not crash the server
     res.extra['loops_seen'] = nloops
